@@ -88,6 +88,8 @@ def run(ctx):
     seen = {"kinds": set(), "N": set(), "prior": set(), "parse": set(), "filter": set(), "clamp": set(), "additive": set(), "ubound": set(), "exact": set(), "holeresume": set(), "beyond": set()}
     nruns = nsteps = nresume = 0
     nknown = [0]
+    nfreshlarge = [0]
+    last_scale = {}
     hole = False
     for (p, ok, r, at) in res:
         recs = lib.read_ndjson(p)
@@ -103,8 +105,12 @@ def run(ctx):
                 seen["beyond"].add("scale" if rec.get("mode") == "data" else "scale-eff")
                 if rec.get("mode") == "eff" and abs(rec["by"]) >= 20:
                     seen["beyond"].add("scale-eff-large")
+            if e == "ScaleOf":
+                last_scale = rec
             if e == "Run" and rec["kind"] == "scaled" and rec["start"] == 1:
                 seen["beyond"].add("scale-eff-fresh-start")
+                if last_scale.get("mode") == "eff" and last_scale["by"] >= 25:      # sensitivities below 1e-5
+                    nfreshlarge[0] += 1
             if e == "System":
                 hole = any(len(col) == 0 for col in rec["cols"])       # a voxel no bin sees (zero sensitivity)
             elif e == "Config":
@@ -179,11 +185,12 @@ def run(ctx):
                 or not any(c[0] for c in seen["clamp"]) or not any(c[1] for c in seen["clamp"])
                 # prior + voxel of zero sensitivity + run started at a sub-iteration > 1: free (resume) and exact (single)
                 or (False, "resume") not in seen["holeresume"] or (True, "single") not in seen["holeresume"]
-                or not BEYOND <= seen["beyond"]):
+                or not BEYOND <= seen["beyond"] or nfreshlarge[0] < 3):
             raise lib.ModelFailure("recorded traces do not cover the option space: %s missing=%s" % ({k: sorted(map(str, v)) for k, v in seen.items()}, missing))
     ctx.extra["runs"] = nruns
     ctx.extra["sub_iterations"] = nsteps
     ctx.extra["resumed_runs"] = nresume
+    ctx.extra["fresh_starts_with_sensitivities_below_1e-5"] = nfreshlarge[0]
     ctx.extra["lines_classified_as_known_finding"] = nknown[0]
     ctx.exhaustive = False
     ctx.assumptions = [
